@@ -665,6 +665,7 @@ def gen_obligations(tier, seed, universes, alphabet_, run_model_, gen_filter, st
                 for op in sel:
                     out.append({"family": "hist", "layer": "state", "universe": uni, "weighted": weighted,
                                 "ops": base + [op]})
+        out.extend(detours(alpha, uni, weighted, rng, 14 if q else 80))
         for _ in range(n_long[0 if q else 1]):
             n = rng.randint(4, 6)
             out.append({"family": "hist", "layer": "seeded", "universe": uni, "weighted": weighted,
@@ -680,6 +681,25 @@ def gen_obligations(tier, seed, universes, alphabet_, run_model_, gen_filter, st
 
 
 UNIVERSES_ALL = {"int": [0, 1, 2], "str": ["a", "b", "c"]}
+
+
+def detours(alpha, uni, weighted, rng, n):
+    """insert X, insert Y, remove one of them (directly or through one of its nodes), insert Z, then touch Y or Z:
+    the shape that exposes reuse of internal identifiers and stale index entries"""
+    adds = [o for o in alpha if o[0] == "add_edge" and o[-1] is None and not isinstance(o[2] if len(o) > 4 else 0, dict)
+            and (len(o) < 5 or not (isinstance(o[2], int) and o[2] < 0))]
+    rnodes = [o for o in alpha if o[0] == "remove_node"]
+    sw = [o for o in alpha if o[0] == "set_weight" and o[-1] == "W"]
+    out = []
+    for _ in range(n):
+        x, y, z = rng.sample(adds, 3)
+        rem = ["remove_edge"] + x[1:-2] if rng.random() < 0.7 else rng.choice(rnodes)
+        first, second = (x, y) if rng.random() < 0.5 else (y, x)
+        ops = [first, second, rem, z]
+        if weighted and sw and rng.random() < 0.5:
+            ops.append(rng.choice(sw))
+        out.append({"family": "hist", "layer": "detour", "universe": uni, "weighted": weighted, "ops": ops})
+    return out
 
 
 def obligations(tier, seed):
